@@ -2064,4 +2064,142 @@ theorem clientBytes_untime (D : Nat) (s : List TEv) (now : Nat) :
     · simp [clientBytes, clientEnd]
 
 
+/-! ## The QUIC long-header walk on an encoded Initial -/
+
+theorem drop_append_len {α} (a b : List α) (n : Nat) (h : n = a.length) : (a ++ b).drop n = b := by
+  subst h; simp
+
+theorem quicHeader_encode (h : InitialHdr) (len : Nat) (body rest : Bytes) (hwf : h.WF len)
+    (hb : body.length = len) :
+    quicHeader (encodeHdr h len ++ (body ++ rest))
+      = some ((encodeHdr h len).length, (encodeHdr h len).length + len, h.dcid) := by
+  obtain ⟨hlong, hinit, htok, hlen, h8⟩ := hwf
+  have hk1 : 1 ≤ 2 ^ h.kTok := Nat.one_le_two_pow
+  have hk2 : 1 ≤ 2 ^ h.kLen := Nat.one_le_two_pow
+  let dl := h.dcid.length
+  let sl := h.scid.length
+  let tl := h.token.length
+  -- the whole buffer, right-nested
+  have eB : encodeHdr h len ++ (body ++ rest)
+      = h.first :: h.v0 :: h.v1 :: h.v2 :: h.v3 :: dl :: (h.dcid ++ (sl :: (h.scid ++
+          (encVarint tl h.kTok ++ (h.token ++ (encVarint len h.kLen ++ (body ++ rest))))))) := by
+    simp [encodeHdr, dl, sl, tl, List.append_assoc]
+  have eL : (encodeHdr h len).length = 6 + dl + 1 + sl + 2 ^ h.kTok + tl + 2 ^ h.kLen := by
+    simp [encodeHdr, encVarint_length, dl, sl, tl]; omega
+  generalize hB : encodeHdr h len ++ (body ++ rest) = B at eB
+  have hBlen : B.length = 6 + dl + 1 + sl + 2 ^ h.kTok + tl + 2 ^ h.kLen + len + rest.length := by
+    rw [← hB]; simp [eL, hb]; omega
+  have g0 : B.getD 0 0 = h.first := by rw [eB]; rfl
+  have g5 : B.getD 5 0 = dl := by rw [eB]; rfl
+  have hit : isInitialType B = true := by
+    rw [eB]; simpa [isInitialType] using hinit
+  have gsl : B.getD (6 + dl) 0 = sl := by
+    rw [eB]
+    have := getD_append_mid (h.first :: h.v0 :: h.v1 :: h.v2 :: h.v3 :: dl :: h.dcid) sl
+      (h.scid ++ (encVarint tl h.kTok ++ (h.token ++ (encVarint len h.kLen ++ (body ++ rest))))) (6 + dl)
+      (by simp [dl]; omega)
+    simpa using this
+  have hdcid : slice B 6 (6 + dl) = h.dcid := by
+    rw [eB]
+    have := slice_mid' [h.first, h.v0, h.v1, h.v2, h.v3, dl] h.dcid
+      (sl :: (h.scid ++ (encVarint tl h.kTok ++ (h.token ++ (encVarint len h.kLen ++ (body ++ rest)))))) dl rfl
+    simpa using this
+  have hd1 : B.drop (6 + dl + 1 + sl) = encVarint tl h.kTok ++ (h.token ++ (encVarint len h.kLen ++ (body ++ rest))) := by
+    rw [eB]
+    have := drop_append_len (h.first :: h.v0 :: h.v1 :: h.v2 :: h.v3 :: dl :: (h.dcid ++ (sl :: h.scid)))
+      (encVarint tl h.kTok ++ (h.token ++ (encVarint len h.kLen ++ (body ++ rest)))) (6 + dl + 1 + sl)
+      (by simp [dl, sl]; omega)
+    simpa [List.append_assoc] using this
+  have hd2 : B.drop (6 + dl + 1 + sl + 2 ^ h.kTok + tl) = encVarint len h.kLen ++ (body ++ rest) := by
+    rw [eB]
+    have := drop_append_len (h.first :: h.v0 :: h.v1 :: h.v2 :: h.v3 :: dl :: (h.dcid ++ (sl :: (h.scid ++
+      (encVarint tl h.kTok ++ h.token))))) (encVarint len h.kLen ++ (body ++ rest)) (6 + dl + 1 + sl + 2 ^ h.kTok + tl)
+      (by simp [dl, sl, tl, encVarint_length]; omega)
+    simpa [List.append_assoc] using this
+  unfold quicHeader
+  rw [if_neg (by omega)]
+  simp only [g0, g5, hit]
+  rw [if_neg (by omega), if_neg (by simp), if_neg (by omega)]
+  simp only [show 6 + dl + 1 - 1 = 6 + dl by omega, gsl, hdcid]
+  rw [if_neg (by omega), show 6 + dl + 1 + sl + 8 - 8 = 6 + dl + 1 + sl by omega, hd1,
+    uvarint_encode tl h.kTok _ htok]
+  simp only []
+  rw [if_neg (by omega), show 6 + dl + 1 + sl + 2 ^ h.kTok + tl + 8 - 8 = 6 + dl + 1 + sl + 2 ^ h.kTok + tl by omega,
+    hd2, uvarint_encode len h.kLen _ hlen]
+  simp only []
+  rw [if_neg (by omega), if_neg (by omega), eL]
+
+
+theorem reassemble_single (ch : ClientHello) (items : List Item) (tp : Nat)
+    (hfit : ∀ it ∈ items, it.frame.Fits)
+    (hw : ∀ b ∈ cryptoBlocks items, Within (handshake ch) b)
+    (hcov : ∀ q, q < (handshake ch).length → ∃ b ∈ cryptoBlocks items, covers b q) :
+    reassemble [] (encodeItems items tp) = .ok [⟨0, handshake ch⟩] := by
+  have hpos : 0 < (handshake ch).length := by simp [handshake]
+  have := feed_complete_aux (handshake ch) hpos [(encodeItems items tp, cryptoBlocks items)]
+    (by intro pf hpf; simp only [List.mem_singleton] at hpf; subst hpf
+        exact parseFrames_encode items tp hfit _ (Nat.le_refl _))
+    (by intro pf hpf; simp only [List.mem_singleton] at hpf; subst hpf; exact hw)
+    [] (by simp) (by simp [Separated])
+    (by intro q hq; obtain ⟨b, hb, hc⟩ := hcov q hq; exact Or.inr ⟨_, List.mem_singleton.mpr rfl, b, hb, hc⟩)
+  simp only [List.map_cons, List.map_nil, feedPayloads] at this
+  cases hr : reassemble [] (encodeItems items tp) with
+  | ok cr => rw [hr] at this; simpa using this
+  | error e => rw [hr] at this; cases this
+
+theorem sniffUdp_single_packet (ch : ClientHello) (hwf : ch.WF) (items : List Item) (tp : Nat)
+    (hfit : ∀ it ∈ items, it.frame.Fits)
+    (hw : ∀ b ∈ cryptoBlocks items, Within (handshake ch) b)
+    (hcov : ∀ q, q < (handshake ch).length → ∃ b ∈ cryptoBlocks items, covers b q)
+    (h : InitialHdr) (len : Nat) (body : Bytes) (hh : h.WF len) (hb : body.length = len)
+    (oracle : List Sealed)
+    (horc : oracleLookup oracle 0 (encodeHdr h len).length ((encodeHdr h len).length + len) h.dcid
+      = some (encodeItems items tp)) :
+    ((({} : Pkt).append (encodeHdr h len ++ body)).sniffUdp oracle).1 = udpAnswer ch ∧
+    ((({} : Pkt).append (encodeHdr h len ++ body)).sniffUdp oracle).2.needMore = false := by
+  let dg := encodeHdr h len ++ body
+  have hqh := quicHeader_encode h len body [] hh hb
+  simp only [List.append_nil] at hqh
+  have hlen : dg.length = (encodeHdr h len).length + len := by simp [dg, hb]
+  have hne : dg ≠ [] := by simp [dg, encodeHdr]
+  have hge : 7 ≤ dg.length := by
+    have : 6 ≤ (encodeHdr h len).length := by simp [encodeHdr]
+    have := hh.2.2.2.2; omega
+  have hlikely : isLikelyQuic dg = true := by
+    unfold isLikelyQuic
+    rw [if_neg (by omega)]
+    have h0 : dg.getD 0 0 = h.first := by simp [dg, encodeHdr]
+    have hi : isInitialType dg = true := by
+      have := hh.2.1
+      simpa [isInitialType, dg, encodeHdr] using this
+    have := hh.1
+    simp only [h0, hi, Bool.and_true, beq_iff_eq]
+    omega
+  have hblock : quicBlock oracle 0 [] dg = .ok ([⟨0, handshake ch⟩], []) := by
+    unfold quicBlock
+    rw [hqh]
+    simp only []
+    rw [horc]
+    simp only []
+    rw [reassemble_single ch items tp hfit hw hcov]
+    simp only []
+    rw [← hlen]; simp
+  have hloop : quicLoop oracle dg.length (dg.length + 1) [] dg false = ([⟨0, handshake ch⟩], none) := by
+    rw [quicLoop, Nat.sub_self, hblock]
+    simp
+  have happ : (({} : Pkt).append dg) = { buf := dg, data := [[], dg], nextRead := 0, cryptos := [], needMore := false, sniffed := [] } := by
+    simp [Pkt.append]
+  show ((({} : Pkt).append dg).sniffUdp oracle).1 = udpAnswer ch ∧ ((({} : Pkt).append dg).sniffUdp oracle).2.needMore = false
+  rw [happ]
+  unfold Pkt.sniffUdp
+  simp only []
+  rw [if_neg (by simp), if_neg hne, if_neg (by simp [hlikely])]
+  simp only [List.drop_zero, hloop]
+  rw [extractSni_complete ch hwf]
+  unfold udpAnswer
+  cases hs : specResult ch with
+  | ok d => exact ⟨rfl, rfl⟩
+  | error e => simp [helloComplete_handshake]
+
+
 end DaeVerif.C06
